@@ -6,13 +6,21 @@
    precondition) holds.  Every theorem is proved by the one tactic [gen_arena_tac]; the script does not
    follow the shape of the generated terms. *)
 From Lasso Require Import Base Arena ArenaProofs.
-From LassoGen Require Import GenPrelude GenIR GenTactics ArenaGen.
+From LassoGen Require Import GenPrelude GenIR GenRequest GenTactics ArenaGen.
 Open Scope N_scope.
 
 (* ---------------- Bucket (src/arenas/bucket.rs) ---------------- *)
 
-Theorem gen_with_capacity_eq : forall id cap,
-  fst (run_wc gen_with_capacity id cap) = Some (fresh_block id cap).
+(* exact in both directions: a Layout of cap bytes exists iff cap <= isize::MAX *)
+Theorem gen_with_capacity_eq : forall id cap, cap <= isize_max ->
+  fst (run_wc gen_with_capacity id cap) = Some (Ok (fresh_block id cap)).
+Proof. gen_arena_tac. Qed.
+Theorem gen_with_capacity_refuses : forall id cap, isize_max < cap ->
+  fst (run_wc gen_with_capacity id cap) = Some (Err FailedAllocation).
+Proof. gen_arena_tac. Qed.
+(* i.e. with_capacity meets the specification by which its callers are interpreted *)
+Theorem gen_with_capacity_spec : forall id cap,
+  fst (run_wc gen_with_capacity id cap) = Some (wc_spec id cap).
 Proof. gen_arena_tac. Qed.
 Theorem gen_with_capacity_safe : forall id cap, wc_pre cap ->
   snd (run_wc gen_with_capacity id cap).
@@ -43,8 +51,11 @@ Proof. gen_arena_tac. Qed.
 
 (* ---------------- Arena (src/arenas/single_threaded.rs) ---------------- *)
 
-Theorem gen_new_eq : forall cap lim,
-  fst (run_new gen_new [cap; lim]) = Some (arena_new cap lim).
+Theorem gen_new_eq : forall cap lim, cap <= isize_max ->
+  fst (run_new gen_new [cap; lim]) = Some (Ok (arena_new cap lim)).
+Proof. gen_arena_tac. Qed.
+Theorem gen_new_refuses : forall cap lim, isize_max < cap ->
+  fst (run_new gen_new [cap; lim]) = Some (Err FailedAllocation).
 Proof. gen_arena_tac. Qed.
 Theorem gen_new_safe : forall cap lim, wc_pre cap ->
   snd (run_new gen_new [cap; lim]).
@@ -65,27 +76,49 @@ Theorem gen_allocate_memory_safe : forall a s n, alloc_pre a n ->
   snd (run_fun gen_allocate_memory a s [n]).
 Proof. gen_arena_tac. Qed.
 
-(* store_str computes vec_store: no hypothesis at all is needed for the VALUE *)
-Theorem gen_store_str_eq : forall a s,
+(* store_str computes vec_store exactly when the bucket the model allocates (if any) can be described by a Layout *)
+Theorem gen_store_str_eq_exact : forall a s,
+  (forall c d, vec_alloc_request a s = Some (c, d) -> c <= isize_max) ->
   as_str_result (fst (run_fun gen_store_str a s [])) = Some (Arena.vec_store a s).
 Proof. gen_arena_tac. Qed.
 
-(* ... and on well-formed arenas with representable sizes every obligation holds; in particular every
+(* ... in particular on the customary domain *)
+Theorem gen_store_str_eq : forall a s, 2 * bucket_cap a <= isize_max -> slen s <= isize_max ->
+  as_str_result (fst (run_fun gen_store_str a s [])) = Some (Arena.vec_store a s).
+Proof. gen_arena_tac. Qed.
+
+(* ... and otherwise with_capacity refuses AFTER allocate_memory has booked the bytes (and, in the doubling branch,
+   after bucket_capacity has been doubled): Err(FailedAllocation), no bucket added, usage (and capacity) changed *)
+Theorem gen_store_str_failed_alloc_leaves_usage : forall a s c d,
+  vec_alloc_request a s = Some (c, d) -> isize_max < c ->
+  as_str_result (fst (run_fun gen_store_str a s [])) = Some (after_failed_alloc a c d, Err FailedAllocation).
+Proof. gen_arena_tac. Qed.
+
+(* what vec_alloc_request means, in terms of the model *)
+Theorem vec_alloc_request_spec : forall a s c d, vec_alloc_request a s = Some (c, d) ->
+  exists a' r, Arena.vec_store a s = (a', Ok r) /\ usage a' = usage a + c /\
+               bucket_cap a' = (if d then c else bucket_cap a) /\ next_bid a' = next_bid a + 1.
+Proof.
+  intros a s c d. unfold vec_alloc_request, vec_store, vec_store_gen.
+  destruct s as [|x s0]; [discriminate|]. set (s := x :: s0).
+  pose proof (grow_request_spec vec_place a s) as G.
+  assert (R : grow_request a s = Some (c, d) ->
+              exists a' r, grow vec_place true a s = (a', Ok r) /\ usage a' = usage a + c /\
+                           bucket_cap a' = (if d then c else bucket_cap a) /\ next_bid a' = next_bid a + 1).
+  { intros E. rewrite E in G. destruct G as (b & r & -> & _). eexists _, _. split; [reflexivity|]. cbn. auto. }
+  destruct (last_opt (blocks a)) as [b|]; [|exact R].
+  destruct (slen s <=? bcap b - bused b); [discriminate|exact R].
+Qed.
+
+(* on well-formed arenas every collected obligation holds -- no condition on Layout sizes any more; in particular every
    push_slice call site establishes push_pre: "the unchecked copy is guarded", for the code as written *)
 Theorem gen_store_str_safe : forall a s, ArenaInv a -> arena_typed a -> store_dom a s ->
   snd (run_fun gen_store_str a s []).
 Proof. unfold store_dom. gen_arena_tac. Qed.
 
-(* the same domain from the customary bounds "everything is below 2^63" *)
-Theorem gen_store_str_safe_63 : forall a s, ArenaInv a -> arena_typed a ->
-  usage a <= isize_max -> 2 * bucket_cap a <= isize_max -> slen s <= isize_max ->
-  snd (run_fun gen_store_str a s []).
-Proof.
-  intros a s Hi Ht H1 H2 H3. apply gen_store_str_safe; auto.
-  unfold store_dom, isize_max, usize_max in *. lia.
-Qed.
-
 Print Assumptions gen_with_capacity_eq.
+Print Assumptions gen_with_capacity_refuses.
+Print Assumptions gen_with_capacity_spec.
 Print Assumptions gen_with_capacity_safe.
 Print Assumptions gen_free_elements_eq.
 Print Assumptions gen_free_elements_safe.
@@ -94,11 +127,14 @@ Print Assumptions gen_bucket_clear_eq.
 Print Assumptions gen_push_slice_eq.
 Print Assumptions gen_push_slice_safe.
 Print Assumptions gen_new_eq.
+Print Assumptions gen_new_refuses.
 Print Assumptions gen_new_safe.
 Print Assumptions gen_memory_usage_eq.
 Print Assumptions gen_clear_eq.
 Print Assumptions gen_allocate_memory_eq.
 Print Assumptions gen_allocate_memory_safe.
+Print Assumptions gen_store_str_eq_exact.
 Print Assumptions gen_store_str_eq.
+Print Assumptions gen_store_str_failed_alloc_leaves_usage.
+Print Assumptions vec_alloc_request_spec.
 Print Assumptions gen_store_str_safe.
-Print Assumptions gen_store_str_safe_63.
